@@ -32,7 +32,7 @@ def install(state, spec):
 
 def collect(state):
     tt = export.TypeTable()
-    folds = [{"tmp": tt.add(a), "t": tt.add(b), "f": tt.add(c), "out": tt.add(o)} for a, b, c, o in state.get("raw", [])[:200]]
+    folds = [{"tmp": tt.add(a), "t": tt.add(b), "f": tt.add(c), "out": tt.add(o)} for a, b, c, o in state.get("raw", [])[:2000]]
     return {"tt": tt.entries, "folds": folds, "n": len(state.get("raw", []))}
 
 
